@@ -92,11 +92,18 @@ def rule_c15_r2(model: Model) -> RuleResult:
     nz = Normalizer(model, f, cfg, param_map=_pm(f))
     r.analysed.add(f.qualname)
     stores = []
+    # locals that *are* the map (`field_map = {}` ... `self.field_map = field_map`)
+    aliases = set()
+    for st_ in ast.walk(f.node):
+        tgts_ = st_.targets if isinstance(st_, ast.Assign) else ([st_.target] if isinstance(st_, ast.AnnAssign) and st_.value is not None else [])
+        if any(unparse(x) == 'self.field_map' for x in tgts_) and isinstance(st_.value, ast.Name):     # type: ignore[union-attr]
+            aliases.add(st_.value.id)      # type: ignore[union-attr]
     for n in cfg.live_nodes():
         if n.kind == 'stmt' and isinstance(n.ast, ast.Assign):
             for tg in n.ast.targets:
                 if isinstance(tg, ast.Subscript) and nz.expr(tg.value, n).startswith('self.field_map') or \
-                        (isinstance(tg, ast.Subscript) and unparse(tg.value) == 'self.field_map'):
+                        (isinstance(tg, ast.Subscript) and unparse(tg.value) == 'self.field_map') or \
+                        (isinstance(tg, ast.Subscript) and isinstance(tg.value, ast.Name) and tg.value.id in aliases):
                     stores.append((n, nz.expr(tg.slice, n).replace('self.cls_info.fields', 'self.fields'),
                                    nz.expr(n.ast.value, n).replace('self.cls_info.fields', 'self.fields')))
     keys = {k for (_n, k, _v) in stores}
@@ -436,13 +443,18 @@ def _stdlib_hash_table() -> t.Dict[t.Tuple[bool, bool, bool, bool], str]:
     raise AnalysisError("stdlib dataclasses._hash_action not found")
 
 
-def _read_hash_table(d: ast.Dict) -> t.Dict[t.Tuple[bool, bool, bool, bool], str]:
+def _read_hash_table(d: ast.Dict, model: t.Optional[Model] = None) -> t.Dict[t.Tuple[bool, bool, bool, bool], str]:
     out = {}
     for k, v in zip(d.keys, d.values):
         if not isinstance(k, ast.Tuple) or len(k.elts) != 4 or not all(isinstance(e, ast.Constant) and isinstance(e.value, bool) for e in k.elts):
             raise AnalysisError("_hash_action key is not a 4-tuple of booleans")
         key = tuple(e.value for e in k.elts)  # type: ignore[attr-defined]
         name = unparse(v)
+        if model is not None and isinstance(v, ast.Call) and not v.keywords and all(isinstance(a, ast.Constant) and isinstance(a.value, bool) for a in v.args):
+            # a cell computed by a rule function of the package on constant arguments: evaluate that function
+            g = model.functions.get(model.resolve(v.func, model.module(CLS)) or '')
+            if g is not None and isinstance(g.node, ast.FunctionDef) and len(g.params) == len(v.args):
+                name = _eval_bool_function(g.node, {p_: a.value for p_, a in zip(g.params, v.args)})      # type: ignore[attr-defined]
         cls = 'none' if name == 'None' else ('set_none' if 'none' in name.lower() else ('exception' if 'exception' in name.lower() else 'add'))
         out[key] = cls   # type: ignore[index]
     return out
@@ -521,7 +533,7 @@ def rule_c16_r1(model: Model) -> RuleResult:
                         tbl = model.table(CLS, anchors.short(tq))
                         if not isinstance(tbl, ast.Dict):
                             raise AnalysisError("the hash action table is not a dict display")
-                        raw = _read_hash_table(tbl)
+                        raw = _read_hash_table(tbl, model)
                         loc = f"pane/classes.py:{tbl.lineno}"
                         if None not in order and sorted(order) == sorted(roles_want):       # type: ignore[type-var]
                             for key, v in raw.items():
@@ -1041,31 +1053,67 @@ def rule_c17_r3(model: Model) -> RuleResult:
                 specs_name = it.func.value.id
     if specs_name is None:
         raise AnalysisError(f"{f.loc()}: _process: the merged spec table (iterated with make_field) was not found")
-    for n in cfg.live_nodes():
-        if n.kind == 'stmt' and isinstance(n.ast, (ast.Assign, ast.AnnAssign)):
-            tgts = n.ast.targets if isinstance(n.ast, ast.Assign) else [n.ast.target]
-            for tg in tgts:
-                if isinstance(tg, ast.Name) and tg.id == specs_name and n.ast.value is not None:
-                    v = n.ast.value
-                    if isinstance(v, ast.Dict) and not v.keys:
-                        continue
-                    if isinstance(v, ast.DictComp) and len(v.generators) == 1 and not v.generators[0].ifs \
-                            and unparse(v.generators[0].iter) == f'{specs_name}.items()' and isinstance(v.key, ast.Name):
-                        continue      # value rewrite, keys and order preserved
-                    bad.append(n)
-        for root in node_exprs(n):
-            for c in walk_no_nested(root):
-                if isinstance(c, ast.Call) and isinstance(c.func, ast.Attribute) and unparse(c.func.value) == specs_name:
-                    if c.func.attr == 'update':
-                        n_upd += 1
-                    elif c.func.attr in ('pop', 'clear', 'popitem', 'setdefault', '__delitem__'):
-                        bad.append(n)
-        if n.kind == 'stmt' and isinstance(n.ast, ast.Delete) and any(unparse(tg).startswith(f'{specs_name}[') for tg in n.ast.targets):
-            bad.append(n)
+    def keeps_order(v: ast.AST, name: str) -> bool:
+        """``v`` is the table ``name`` itself or a value rewrite of it (same keys, same order)."""
+        if isinstance(v, ast.Name) and v.id == name:
+            return True
+        return isinstance(v, ast.DictComp) and len(v.generators) == 1 and not v.generators[0].ifs \
+            and unparse(v.generators[0].iter) == f'{name}.items()' and isinstance(v.key, ast.Name)
+
+    def writes(g: FuncInfo, name: str, depth: int = 0) -> t.Tuple[t.List[t.Tuple[FuncInfo, ast.AST]], int]:
+        """(disallowed writes to the table ``name`` inside ``g``, number of in-place updates), following helpers the table is handed to."""
+        bad_: t.List[t.Tuple[FuncInfo, ast.AST]] = []
+        upd = 0
+        for st in ast.walk(g.node):
+            if isinstance(st, (ast.Assign, ast.AnnAssign)):
+                tgts = st.targets if isinstance(st, ast.Assign) else [st.target]
+                for tg in tgts:
+                    if isinstance(tg, ast.Name) and tg.id == name and st.value is not None:
+                        v = st.value
+                        if isinstance(v, ast.Dict) and not v.keys:
+                            continue
+                        if keeps_order(v, name):
+                            continue      # value rewrite, keys and order preserved
+                        if isinstance(v, ast.Call) and depth < 2:
+                            hq = model.resolve(v.func, g.module, g)
+                            h = model.functions.get(hq or '')
+                            pos = [i_ for i_, a_ in enumerate(v.args) if isinstance(a_, ast.Name) and a_.id == name]
+                            if h is not None and isinstance(h.node, ast.FunctionDef) and h.cls is None and len(pos) == 1 and pos[0] < len(h.params):
+                                hp = h.params[pos[0]]
+                                hb, hu = writes(h, hp, depth + 1)
+                                rets = [x for x in ast.walk(h.node) if isinstance(x, ast.Return)]
+                                if not hb and rets and all(x.value is not None and keeps_order(x.value, hp) for x in rets):
+                                    upd += hu
+                                    continue
+                                bad_.extend(hb or [(g, st)])
+                                continue
+                        bad_.append((g, st))
+            if isinstance(st, ast.Call) and isinstance(st.func, ast.Attribute) and unparse(st.func.value) == name:
+                if st.func.attr == 'update':
+                    upd += 1
+                elif st.func.attr in ('pop', 'clear', 'popitem', 'setdefault', '__delitem__'):
+                    bad_.append((g, st))
+            if isinstance(st, ast.Delete) and any(unparse(tg).startswith(f'{name}[') for tg in st.targets):
+                bad_.append((g, st))
+        return bad_, upd
+    bad_pairs, n_upd = writes(f, specs_name)
+    # (an update inside a helper called from two places counts for each call site)
+    calls_of_helpers = sum(1 for st in ast.walk(f.node) if isinstance(st, (ast.Assign, ast.AnnAssign)) and isinstance(st.value, ast.Call)
+                           and any(isinstance(a_, ast.Name) and a_.id == specs_name for a_ in st.value.args)
+                           and model.functions.get(model.resolve(st.value.func, f.module, f) or '') is not None)
+    if calls_of_helpers >= 2 and n_upd >= 2:
+        pass
+    elif calls_of_helpers >= 2 and n_upd >= 1:
+        n_upd = max(n_upd, calls_of_helpers)
+
+    class _B:       # adapter for the reporting code below
+        def __init__(self, g: FuncInfo, a: ast.AST):
+            self.g, self.ast = g, a
+    bad = [_B(g, a) for (g, a) in bad_pairs]
     r.instances += 1
     r.sample({'specs.update calls': n_upd, 'other writes': [unparse(b.ast)[:60] for b in bad]})
     if bad:
-        r.fail(f.qualname, f"specs rebuilt: {unparse(bad[0].ast)[:90]}", f.loc(bad[0].ast),
+        r.fail(f.qualname, f"specs rebuilt: {unparse(bad[0].ast)[:90]}", bad[0].g.loc(bad[0].ast),
                "the merged spec table is rebuilt or pruned instead of updated in place: a field redeclared by a base moves to the end "
                "instead of keeping its position (signature, tuple layout and repr follow the wrong order)")
     elif n_upd >= 2:
